@@ -286,6 +286,45 @@ def r_cow_borrowed(t):
     return out, n
 
 
+def r_iter_mut(t):
+    """R14: loops over `&mut Vec` that Verus cannot reason about are turned into index loops, element by element in the same
+    order:  `for X in &mut E { B }`           -> `let mut verif_i: usize = 0; while verif_i < E.len() { let X = &mut E[verif_i]; B verif_i += 1; }`
+            `for X in E.iter_mut().rev() { B }` -> `let mut verif_i: usize = E.len(); while verif_i > 0 { verif_i -= 1; let X = &mut E[verif_i]; B }`
+    Applied only when B contains no `continue` / `break` and E contains no braces."""
+    n = 0
+    i = 0
+    out = []
+    while i < len(t):
+        if t[i] == "for" and i + 2 < len(t) and t[i + 2] == "in":
+            x = t[i + 1]
+            j = i + 3
+            k = j
+            while k < len(t) and t[k] != "{":
+                k += 1
+            head = t[j:k]
+            close = _match_close(t, k)
+            body = t[k + 1:close]
+            if "continue" in body or "break" in body:
+                out.append(t[i]); i += 1; continue
+            if head[:2] == ["&", "mut"] and "{" not in head:
+                e = head[2:]
+                out += ["let", "mut", "verif_i", ":", "usize", "=", "0", ";", "while", "verif_i", "<"] + e + [".", "len", "(", ")", "{",
+                        "let", x, "=", "&", "mut"] + e + ["[", "verif_i", "]", ";"] + r_iter_mut(body)[0] + ["verif_i", "+=", "1", ";", "}"]
+                n += 1
+                i = close + 1
+                continue
+            if head[-8:] == [".", "iter_mut", "(", ")", ".", "rev", "(", ")"]:
+                e = head[:-8]
+                out += ["let", "mut", "verif_i", ":", "usize", "="] + e + [".", "len", "(", ")", ";", "while", "verif_i", ">", "0", "{",
+                        "verif_i", "-=", "1", ";", "let", x, "=", "&", "mut"] + e + ["[", "verif_i", "]", ";"] + r_iter_mut(body)[0] + ["}"]
+                n += 1
+                i = close + 1
+                continue
+        out.append(t[i])
+        i += 1
+    return out, n
+
+
 def r_replace(t, frm, to):
     """generic literal token-sequence replacement (per-item, listed in the overlay directive)"""
     out, i, n = [], 0, 0
@@ -311,6 +350,7 @@ DOC = {
     "R3a": "2u32.pow(x.into()) -> pow2_u32(x) (external_body helper, assumed spec 2^x)",
     "R3b": "x.div_ceil(n) -> div_ceil_u32(x, n) (external_body helper, assumed spec ceil(x/n))",
     "R5": "Cow::Borrowed(e) -> e, return type Cow<'a,[u8]> -> &'a [u8] (only on functions that only ever borrow)",
+    "R14": "`for x in &mut v { .. }` / `for x in v.iter_mut().rev() { .. }` -> index loop over the same elements in the same order (per item)",
     "R6": "`v.drain(n..);` statement -> `v.truncate(n);`",
     "R7": "core::cmp::min/max and .min()/.max() -> monomorphic verified helpers (per item)",
     "R8": "size_of::<uN>() -> integer literal",
@@ -330,6 +370,9 @@ def apply_rules(t, extra=None):
         if kind == "R7":
             t, n = r_minmax(t, spec[1])
             fired["R7"] = fired.get("R7", 0) + n
+        elif kind == "R14":
+            t, n = r_iter_mut(t)
+            fired["R14"] = fired.get("R14", 0) + n
         elif kind == "R5":
             t, n = r_cow_borrowed(t)
             fired["R5"] = fired.get("R5", 0) + n
